@@ -693,6 +693,14 @@ class Ctx:
         self.t0 = time.time()
 
     # -- declaring rules
+    def inl(self, fn: "FuncInfo", keep: Sequence[str] = ()) -> ast.FunctionDef:
+        """fn's definition with the calls to private helpers expanded in place (see inline.py); `keep` names stay calls"""
+        if getattr(self, "_inliner", None) is None:
+            from .inline import Inliner
+
+            self._inliner = Inliner(self.repo)
+        return self._inliner.inlined(fn, keep)
+
     def rule(self, rid: str, doc: str, min_instances: int = 1) -> str:
         self.rule_docs[rid] = doc
         self.rule_min[rid] = min_instances
